@@ -2,6 +2,7 @@
 import ast
 from ..model import own_nodes, AnalysisError
 from ..paths import factmap, call_text, returns, must_call
+from . import shared
 
 
 def who_calls(P, attr, exclude_mods=()):
@@ -317,6 +318,8 @@ def run(P, R):
              for c in own_nodes(u.node))
     R.check(r4, ok, 'the application candidates are the intersection over all its processes', 'filter|intersection',
             u.loc(), 'ApplicationStatus.possible_identifiers no longer intersects the per-process sets')
+
+    shared.disability_accepted(P, R, r4)
 
     # ---------------------------------------------------------------- R5
     r5 = R.rule('R5', 'must-call in branch', 'when no instance qualifies nothing is sent and the process is reported '
